@@ -137,6 +137,10 @@ struct Ledger {
     body_segments_sent: usize,
     delivered: usize,
     eof_reported_before_deadline: bool,
+    /// the peer sent data after the timeout thread had shut the socket down: Linux resets a
+    /// connection that receives data while shut down for reading, so a later read may report
+    /// ConnectionReset instead of the timeout
+    data_after_shutdown: bool,
 }
 
 fn enabled_gate(t: &ThreadInfo, l: &Ledger, has_wd: bool) -> bool {
@@ -155,13 +159,35 @@ fn enabled_gate(t: &ThreadInfo, l: &Ledger, has_wd: bool) -> bool {
 
 /// Runs one execution following `choices` (then always the first enabled move).
 pub fn execute(sc: &Scenario, choices: &[usize]) -> Exec {
+    execute_with(sc, choices, EXPIRING_MS)
+}
+
+/// The windows tried in turn for an expiring deadline: an execution that real time overtakes is
+/// discarded and run again with the next, longer one (what the code does depends on the order of
+/// events only, never on how far away the deadline is).
+const EXPIRING_LADDER_MS: [u64; 5] = [EXPIRING_MS, 300, 800, 2000, 5000];
+
+fn execute_with(sc: &Scenario, choices: &[usize], expiring_ms: u64) -> Exec {
     let mut ex = Exec { points: Vec::new(), results: Vec::new(), violations: Vec::new(), machinery: None };
-    let listener = match TcpListener::bind("127.0.0.1:0") {
-        Ok(l) => l,
-        Err(e) => {
-            ex.machinery = Some(format!("bind: {e}"));
-            return ex;
+    // Listeners are kept per explorer thread and used again: tens of thousands of executions a minute
+    // would otherwise run the loopback interface out of ports (every closed connection holds one
+    // for a minute). Connections left over from an earlier execution are thrown away first.
+    let listener = match LISTENERS.with(|p| p.borrow_mut().pop()) {
+        Some(l) => {
+            let _ = l.set_nonblocking(true);
+            while let Ok((s, _)) = l.accept() {
+                drop(s);
+            }
+            l
         }
+        None => match TcpListener::bind("127.0.0.1:0") {
+            Ok(l) => l,
+            Err(e) => {
+                std::thread::sleep(Duration::from_millis(500));
+                ex.machinery = Some(format!("bind: {e}"));
+                return ex;
+            }
+        },
     };
     let port = listener.local_addr().unwrap().port();
     let gates = Gates::new();
@@ -186,7 +212,7 @@ pub fn execute(sc: &Scenario, choices: &[usize]) -> Exec {
                             Deadline::None => {}
                             Deadline::Far => rb = rb.timeout(Duration::from_secs(60)),
                             Deadline::Immediate => rb = rb.timeout(Duration::from_nanos(1)),
-                            Deadline::Expiring => rb = rb.timeout(Duration::from_millis(EXPIRING_MS)),
+                            Deadline::Expiring => rb = rb.timeout(Duration::from_millis(expiring_ms)),
                         }
                         match guarded(|| rb.send()) {
                             Err(p) => OpRes::Panic(p),
@@ -260,6 +286,7 @@ pub fn execute(sc: &Scenario, choices: &[usize]) -> Exec {
         body_segments_sent: 0,
         delivered: 0,
         eof_reported_before_deadline: false,
+        data_after_shutdown: false,
     };
     let has_wd = sc.deadline != Deadline::None;
     let mut send_started: Option<Instant> = None;
@@ -371,7 +398,8 @@ pub fn execute(sc: &Scenario, choices: &[usize]) -> Exec {
                         }
                         if !timed_out {
                             // another error needs a reason: the stream ended with the frame incomplete
-                            let reason = (l.peer_closed || l.shutdown_done) && !(frame_complete && matches!(op, UserOp::Read(_)) && l.delivered == framed_bytes);
+                            let reason = ((l.peer_closed || l.shutdown_done) && !(frame_complete && matches!(op, UserOp::Read(_)) && l.delivered == framed_bytes))
+                                || l.data_after_shutdown; // (the reset itself, then what a reader that has failed once keeps answering)
                             if !reason {
                                 ex.violations.push(("spurious-error".into(), format!("{ctx_s}: error without cause")));
                             }
@@ -454,7 +482,7 @@ pub fn execute(sc: &Scenario, choices: &[usize]) -> Exec {
         // an expiring deadline must not pass by itself before the explorer says so
         if sc.deadline == Deadline::Expiring && !l.deadline_passed {
             if let Some(t0) = send_started {
-                if t0.elapsed() > Duration::from_millis(EXPIRING_MS - 40) && mv != Move::DeadlinePass {
+                if t0.elapsed() > Duration::from_millis(expiring_ms - 40) && mv != Move::DeadlinePass {
                     ex.machinery = Some("real time overtook the schedule (deadline about to pass by itself)".into());
                     break;
                 }
@@ -476,6 +504,9 @@ pub fn execute(sc: &Scenario, choices: &[usize]) -> Exec {
                     next_seg = segs.len();
                 } else {
                     let _ = s.flush();
+                    if l.shutdown_done {
+                        l.data_after_shutdown = true;
+                    }
                     l.unread += segs[k].len();
                     if k >= 1 {
                         l.body_segments_sent = k;
@@ -490,7 +521,7 @@ pub fn execute(sc: &Scenario, choices: &[usize]) -> Exec {
             }
             Move::DeadlinePass => {
                 let t0 = send_started.unwrap();
-                let target = Duration::from_millis(EXPIRING_MS + 25);
+                let target = Duration::from_millis(expiring_ms + 25);
                 if t0.elapsed() < target {
                     std::thread::sleep(target - t0.elapsed());
                 }
@@ -541,9 +572,17 @@ pub fn execute(sc: &Scenario, choices: &[usize]) -> Exec {
         drop(server);
         drop(listener);
         let _ = user;
+        ex.results = results.lock().unwrap().clone();
+        return ex;
     }
+    drop(server);
+    LISTENERS.with(|p| p.borrow_mut().push(listener));
     ex.results = results.lock().unwrap().clone();
     ex
+}
+
+thread_local! {
+    static LISTENERS: std::cell::RefCell<Vec<TcpListener>> = const { std::cell::RefCell::new(Vec::new()) };
 }
 
 pub struct ExploreStats {
@@ -556,50 +595,82 @@ pub struct ExploreStats {
 
 /// All schedules of one scenario with at most `bound` deviations from the canonical order.
 pub fn explore(ctx: &Ctx, sc: &Scenario, bound: usize, rank_base: u64) -> ExploreStats {
-    let mut st = ExploreStats { executions: 0, decision_points: 0, max_depth: 0, retried: 0, outcomes: BTreeMap::new() };
-    let mut stack: Vec<Vec<usize>> = vec![vec![]];
-    let mut violating = 0u32;
-    while let Some(prefix) = stack.pop() {
-        if violating >= 3 {
+    // The schedule tree of one scenario is explored in parallel: every execution is independent
+    // (own sockets, own gates), a node's children are handed to the pool. The set of schedules
+    // executed is the same as with a sequential depth-first search.
+    struct Shared {
+        st: Mutex<ExploreStats>,
+        violating: std::sync::atomic::AtomicU32,
+        stop: std::sync::atomic::AtomicBool,
+    }
+    fn run_execution(sc: &Scenario, prefix: &[usize], retried: &mut u64, max_tries: usize) -> Exec {
+        let mut ex = execute_with(sc, prefix, EXPIRING_LADDER_MS[0]);
+        let mut tries = 0;
+        while ex.machinery.is_some() && tries < max_tries {
+            tries += 1;
+            *retried += 1;
+            ex = execute_with(sc, prefix, EXPIRING_LADDER_MS[tries.min(EXPIRING_LADDER_MS.len() - 1)]);
+        }
+        ex
+    }
+    fn node(ctx: &Ctx, sc: &Scenario, bound: usize, rank_base: u64, prefix: Vec<usize>, sh: &Shared) {
+        use std::sync::atomic::Ordering::SeqCst;
+        if sh.stop.load(SeqCst) {
+            return;
+        }
+        if sh.violating.load(SeqCst) >= 3 {
             // the verdict for this scenario is in; on a broken tree every further schedule may cost
             // seconds (a stuck thread is only told from a slow one by waiting)
-            ctx.count("scenarios_cut_short_after_3_violating_schedules", 1);
-            return st;
+            if !sh.stop.swap(true, SeqCst) {
+                ctx.count("scenarios_cut_short_after_3_violating_schedules", 1);
+            }
+            return;
         }
-        let mut ex = execute(sc, &prefix);
-        let mut tries = 0;
-        while ex.machinery.is_some() && tries < 3 {
-            tries += 1;
-            st.retried += 1;
-            ex = execute(sc, &prefix);
+        let mut retried = 0u64;
+        let t_dbg = Instant::now();
+        if std::env::var("VH_DEBUG").is_ok() {
+            static N: std::sync::atomic::AtomicU64 = std::sync::atomic::AtomicU64::new(0);
+            let n = N.fetch_add(1, SeqCst);
+            if n % 2000 == 0 {
+                eprintln!("DEBUG {n} executions started");
+            }
+        }
+        let ex = run_execution(sc, &prefix, &mut retried, 4);
+        if std::env::var("VH_DEBUG").is_ok() && t_dbg.elapsed() > Duration::from_millis(1500) {
+            eprintln!("DEBUG slow execution {:?} retried {retried} machinery {:?} viol {:?} sc {sc:?} prefix {prefix:?}", t_dbg.elapsed(), ex.machinery, ex.violations.iter().map(|v| &v.0).collect::<Vec<_>>());
         }
         if let Some(m) = &ex.machinery {
             // this scenario cannot be explored (on a changed tree the scheduling model may no longer
             // fit): recorded, never a verdict; the other scenarios and parts still run
-            ctx.machinery(format!("{m}; scenario {sc:?} schedule {prefix:?}"));
-            return st;
+            if !sh.stop.swap(true, SeqCst) {
+                ctx.machinery(format!("{m}; scenario {sc:?} schedule {prefix:?}"));
+            }
+            sh.st.lock().unwrap().retried += retried;
+            return;
         }
-        st.executions += 1;
-        st.decision_points += ex.points.len() as u64;
-        st.max_depth = st.max_depth.max(ex.points.len() as u64);
-        let oc = format!("{:?}", ex.results.iter().map(|(_, r)| short_res(r)).collect::<Vec<_>>());
-        *st.outcomes.entry(oc).or_insert(0) += 1;
+        {
+            let mut st = sh.st.lock().unwrap();
+            st.retried += retried;
+            st.executions += 1;
+            st.decision_points += ex.points.len() as u64;
+            st.max_depth = st.max_depth.max(ex.points.len() as u64);
+            let oc = format!("{:?}", ex.results.iter().map(|(_, r)| short_res(r)).collect::<Vec<_>>());
+            *st.outcomes.entry(oc).or_insert(0) += 1;
+        }
         if !ex.violations.is_empty() {
             // a violation under gates must reproduce from its recorded schedule
             let full: Vec<usize> = schedule_of(&ex, &prefix);
-            let mut again = execute(sc, &full);
-            let mut tries = 0;
-            while again.machinery.is_some() && tries < 4 {
-                tries += 1;
-                st.retried += 1;
-                again = execute(sc, &full);
-            }
+            let mut retried = 0u64;
+            let again = run_execution(sc, &full, &mut retried, 4);
+            sh.st.lock().unwrap().retried += retried;
             let same = again.machinery.is_none() && again.results == ex.results && again.violations.iter().map(|v| &v.0).eq(ex.violations.iter().map(|v| &v.0));
             if !same {
-                ctx.machinery(format!("a violating schedule did not reproduce: {sc:?} {full:?}: {:?} vs {:?}", ex.violations, again.violations));
-                return st;
+                if !sh.stop.swap(true, SeqCst) {
+                    ctx.machinery(format!("a violating schedule did not reproduce: {sc:?} {full:?}: {:?} vs {:?}", ex.violations, again.violations));
+                }
+                return;
             }
-            violating += 1;
+            sh.violating.fetch_add(1, SeqCst);
             for (sig, what) in &ex.violations {
                 ctx.violation(
                     format!("C13:{sig}:{:?}", sc.framing).to_lowercase().replace("c13:", "C13:"),
@@ -611,19 +682,28 @@ pub fn explore(ctx: &Ctx, sc: &Scenario, bound: usize, rank_base: u64) -> Explor
         }
         // children: deviate at every later point
         let dev_prefix = deviations(&prefix);
+        if dev_prefix + 1 > bound {
+            return;
+        }
+        let mut children: Vec<Vec<usize>> = Vec::new();
         for i in prefix.len()..ex.points.len() {
-            if dev_prefix + 1 > bound {
-                break;
-            }
             for alt in 1..ex.points[i].0 {
                 let mut p = prefix.clone();
                 p.resize(i, 0);
                 p.push(alt);
-                stack.push(p);
+                children.push(p);
             }
         }
+        use rayon::prelude::*;
+        children.into_par_iter().for_each(|p| node(ctx, sc, bound, rank_base, p, sh));
     }
-    st
+    let sh = Shared {
+        st: Mutex::new(ExploreStats { executions: 0, decision_points: 0, max_depth: 0, retried: 0, outcomes: BTreeMap::new() }),
+        violating: std::sync::atomic::AtomicU32::new(0),
+        stop: std::sync::atomic::AtomicBool::new(false),
+    };
+    node(ctx, sc, bound, rank_base, vec![], &sh);
+    sh.st.into_inner().unwrap()
 }
 
 fn deviations(c: &[usize]) -> usize {
@@ -677,7 +757,14 @@ fn scenarios(tier: Tier) -> Vec<(Scenario, usize)> {
                         // a peer that stalls for ever can only be ended by a deadline
                         continue;
                     }
-                    let b = if deadline == Deadline::Expiring && tier == Tier::Quick { 1 } else { bound };
+                    // an expiring deadline adds a move to every decision point: one deviation in the quick
+                    // tier; in the thorough tier three for the short scripts and two for the long ones
+                    // (three would be some 10^5 schedules of 40 decisions for each of them)
+                    let b = match (deadline, tier) {
+                        (Deadline::Expiring, Tier::Quick) => 1,
+                        (Deadline::Expiring, Tier::Thorough) if script.len() > 5 => 2,
+                        _ => bound,
+                    };
                     v.push((Scenario { framing, script: script.clone(), deadline, segments, closes }, b));
                 }
             }
@@ -1626,7 +1713,7 @@ pub fn c13(ctx: &Ctx) -> Report {
     }
     // Part A
     let scs = scenarios(ctx.tier);
-    let pool = rayon::ThreadPoolBuilder::new().num_threads(48).build().unwrap();
+    let pool = rayon::ThreadPoolBuilder::new().num_threads(64).build().unwrap();
     let stats: Vec<ExploreStats> = pool.install(|| {
         use rayon::prelude::*;
         scs.par_iter().enumerate().map(|(i, (sc, bound))| explore(ctx, sc, *bound, i as u64 * 1_000_000)).collect()
@@ -1712,8 +1799,19 @@ pub fn replay(v: &serde_json::Value) -> i32 {
     }
     let sc: Scenario = serde_json::from_value(v["case"]["scenario"].clone()).expect("scenario");
     let schedule: Vec<usize> = serde_json::from_value(v["case"]["schedule"].clone()).expect("schedule");
-    let a = execute(&sc, &schedule);
-    let b = execute(&sc, &schedule);
+    // (an execution that real time overtakes is run again with a longer expiring window)
+    let run = || {
+        let mut ex = execute(&sc, &schedule);
+        for ms in &EXPIRING_LADDER_MS[1..] {
+            if ex.machinery.is_none() {
+                break;
+            }
+            ex = execute_with(&sc, &schedule, *ms);
+        }
+        ex
+    };
+    let a = run();
+    let b = run();
     println!("scenario {sc:?}\nschedule {schedule:?}");
     for (n, m) in &a.points {
         println!("  [{n} enabled] {m:?}");
